@@ -447,7 +447,8 @@ impl Prop for C18 {
                 } else if cause == "allocation-failure" && level >= 2 {
                     Outcome::fail(range_class("out-of-memory"), format!("worker died ({status}) after announcing range {notice}\ninput:\n{shown}"))
                 } else {
-                    Outcome::fail(format!("worker-process-died:{cause}{in_solver}"), format!("{status}\nrange announced: {notice}\ninput:\n{shown}"))
+                    let class = if cause == "allocation-failure" && in_solver == ":in-auto_solver" && wide_integer_range(&src) { ":wide-integer-range" } else { "" };
+                    Outcome::fail(format!("worker-process-died:{cause}{in_solver}{class}"), format!("{status}\nrange announced: {notice}\ninput:\n{shown}"))
                 }
             }
             End::Hang => {
@@ -456,7 +457,13 @@ impl Prop for C18 {
                 } else {
                     // silence inside the MILP / LP solver: is the model one of the two classes on which
                     // the microlp dependency is recorded never to return (C05, C15)?
-                    let class = if in_solver == ":in-auto_solver" && microlp_hang_class(&src) { ":microlp-hang-class" } else { "" };
+                    let class = if in_solver == ":in-auto_solver" && microlp_hang_class(&src) {
+                        ":microlp-hang-class"
+                    } else if in_solver == ":in-auto_solver" && wide_integer_range(&src) {
+                        ":wide-integer-range"
+                    } else {
+                        ""
+                    };
                     Outcome::fail(format!("no-answer-within-{WATCHDOG_S}s{in_solver}{class}"), format!("range announced: {notice}\ninput:\n{shown}"))
                 }
             }
@@ -508,4 +515,16 @@ fn microlp_hang_class(src: &str) -> bool {
     }
     let truth = crate::oracle::rat::solve_milp(&case.to_problem());
     crate::props::c05::hang_prone(&case, &truth)
+}
+
+/// Does the compiled model hold an integer variable whose range is wider than 1000? (branch and
+/// bound without a node limit walks such a range value by value when the relaxation stays
+/// fractional: the recorded solver-stage finding)
+fn wide_integer_range(src: &str) -> bool {
+    let compiled = std::panic::catch_unwind(|| {
+        let model = rooc::RoocParser::new(src.to_string()).parse_and_transform(vec![], &indexmap::IndexMap::new()).ok()?;
+        rooc::Linearizer::linearize(model).ok()
+    });
+    let Ok(Some(lin)) = compiled else { return false };
+    lin.domain().values().any(|d| matches!(d.get_type(), rooc::VariableType::IntegerRange(lo, hi) if (*hi as i64 - *lo as i64) > 1000))
 }
